@@ -516,21 +516,27 @@ class BaseParser:
         as_attname: bool = False,
         excluded_keys: List[str] = None,
     ):
+        options = context.options
         if self.case_insensitive_names:
             _data = {}
             for k, v in data.items():
                 k = str(k)
                 if k.lower() in self.case_insensitive_names:
-                    _data[k.lower()] = v
-                else:
-                    _data[k] = v
+                    k = k.lower()
+                    if k in _data and not options.ignore_alias_conflicts and _data[k] != v:
+                        # two case variants of the same key with different values
+                        field = self.get_field(k)
+                        if field and not field.is_no_input(v, options=options):
+                            name = field.attname if as_attname else field.name
+                            context.handle_error(exc.AliasConflictError(item=name, value=v))
+                            continue
+                _data[k] = v
             data = _data
 
         result = {}
         used_alias = set()
         dependencies = set()
         unprovided_fields = set()
-        options = context.options
 
         for key, field in self.fields.items():
             value = unprovided
